@@ -235,6 +235,12 @@ def parse_output(out):
             r["undetermined"] += 1
         elif st == "UNREACHABLE":
             r["unreachable"] += 1
+    # rs-store functions that occur anywhere in CBMC's messages (loop unwinding, pruned
+    # paths, check locations): the functions whose code is part of the checked program
+    for fm in re.finditer(r" function (.+?)(?: thread \d+| line \d+|$)", out, re.M):
+        fn = norm_fn(fm.group(1).strip())
+        if fn:
+            r["functions"].add(fn)
     m = re.search(r"VERIFICATION:- (\w+)", out)
     if m:
         r["verdict"] = m.group(1)
@@ -328,7 +334,7 @@ def run_harness(stage_dir, h, spec, extra_kani=(), playback=False, log_dir=None)
     """run one harness; returns result dict (cached by source hash + spec)"""
     name = spec["name"]
     full = full_name(name)
-    key = hashlib.sha256(json.dumps([name, spec.get("kani", []), spec.get("cbmc", []), list(extra_kani)], sort_keys=True).encode()).hexdigest()[:12]
+    key = hashlib.sha256(json.dumps(["v2", name, spec.get("kani", []), spec.get("cbmc", []), list(extra_kani)], sort_keys=True).encode()).hexdigest()[:12]
     cdir = os.path.join(SCRATCH, "cache", h)
     cfile = os.path.join(cdir, name.replace("::", "__").replace("@", "") + "-" + key + ".json")
     if not NOCACHE and not playback and os.path.exists(cfile):
